@@ -286,7 +286,17 @@ Definition jwe_skid (prot : phdr) (recs : list rcp) : option kref :=
   match p_skid prot with
   | Some s => Some s
   | None => if single_rec recs then None else
-            match recs with [] => None | _ => match p_apu prot with Some a => kref_of_term a | None => None end end
+            match recs with
+            | [] => None
+            | _ => match p_apu prot with
+                   | Some (Junk _) => None                         (* not base64url: no sender *)
+                   | Some a => match kref_of_term a with
+                               | Some k => Some k
+                               | None => Some (KUnres 0)           (* decodes to a string no resolver resolves *)
+                               end
+                   | None => None
+                   end
+            end
   end.
 
 Record recwk := mkrecwk { wk_kid : option kref; wk_alg : option kwalg; wk_epk : term;
